@@ -94,7 +94,14 @@ def judge(col, b, l, rm, cfg, cls, info, merged, decisions, source="library"):
     try:
         ra = refapply(b, pd)
     except RefApplyError as e:
-        col.violation("refapply-failed:" + str(e).split(" ")[0][:30], str(e)[:200], case, "apply==merged")
+        import re as _re
+        m_ = _re.search(r"key '((?:LOCAL|REMOTE)_[^']*)' targeted twice", str(e))
+        if m_:
+            # the open C03 finding (attachment conflict on NAME while a side adds LOCAL_NAME / REMOTE_NAME itself) as it
+            # looks when assert statements are compiled away (python -O): nbdime returns the decisions instead of raising
+            col.violation("conflict-attachment-name-written-twice", str(e)[:200], case, "apply==merged")
+        else:
+            col.violation("refapply-failed:" + str(e).split(" ")[0][:30], str(e)[:200], case, "apply==merged")
         ra = None
     if ra is not None and not seq(ra, pm):
         mech = "numeric-type-only" if numeric_only(pm, ra) else "refapply-differs-from-merged"
@@ -195,7 +202,7 @@ def _blank_marker_ids(x):
 
 def run_shard(spec):
     from .. import nbd
-    from ..gen_nb import NBGen, to_node
+    from ..gen_nb import NBGen, to_node, to_node_shared
     from ..workloads import valid_triple, covering_configs, merge_args
     col = Collector(ID)
     r = random.Random(spec["seed"])
@@ -210,7 +217,7 @@ def run_shard(spec):
         return col.result()
     for k in range(spec["triples"]):
         gen = NBGen(r, exotic=(k % 5 == 0))
-        cls = "minor_diff" if k % 9 == 0 else None
+        cls = "minor_diff" if k % 9 == 0 else ("repeated_content" if k % 12 == 1 else None)
         cls, b, l, rm, info, waste = valid_triple(gen, cls=cls)
         if cls is None:
             continue
@@ -219,11 +226,15 @@ def run_shard(spec):
         for cfg in cfgs:
             col.eval()
             nbd.hygiene()
+            # every sixth triple is handed over with shared sub-objects (same JSON documents, another object graph)
+            node = to_node_shared if k % 6 == 1 else to_node
             try:
-                merged, dec = nbd.merge_notebooks(to_node(b), to_node(l), to_node(rm), merge_args(cfg))
+                merged, dec = nbd.merge_notebooks(node(b), node(l), node(rm), merge_args(cfg))
             except Exception:
                 col.count("merge_raised(C03's business)")
                 continue
+            if node is to_node_shared:
+                col.count("merges_of_documents_with_shared_subobjects")
             judge(col, b, l, rm, cfg, cls, info, merged, dec)
         if k % spec["file_every"] == 0:
             decisions_file(col, b, l, rm, next((c for c in cfgs if c["merge"] != "mergetool"), cfgs[-1]), cls, tmp, r)
